@@ -1130,7 +1130,7 @@ func RunC03(e *Env) (int, error) {
 		}
 	}
 	viol, err := e.Drive(n, fn, finish)
-	ev.Coverage["rule"] = "each run builds a directory of 1-4 chained layer files (any mix of yaml/yml/json/jsonl, optional sub-directory) with one variation ($parent name / list / dot-bounded wildcard / false / null / chain / invalid, file symlink, directory symlink, missing middle layer, second document carrying the directive, diamond, shared layer linked twice, twin chains with identical file names in two directories), odd names and directories, noise files, debug logging (-v / BKL_DEBUG) in 10% and escaped-dollar spellings in 6% of the runs, 1-2 command-line inputs, virtual extension, -P, -f; runs the instrumented bkl (findFile's stat-probe order seeded); oracle 1 = reference resolver (post-order load list) + the real MergeDocument/Output applied to those loads in a fresh parser; oracle 2 = disk perturbations that must not matter (relocation, absolute input path, noise files, filename chain re-expressed with $parent and renamed); oracle 3 = per-layer fault sweep (delete, dangling link, directory, garbage, openat EIO/EACCES, read EIO) must be fatal; non-trivial = chain of >= 2 loads; distinct = canonical case"
+	ev.Coverage["rule"] = "each run builds a directory of 1-4 chained layer files (any mix of yaml/yml/json/jsonl, optional sub-directory) with one variation ($parent name / list / dot-bounded wildcard / list mixing wildcards and plain names / false / null / chain / invalid, file symlink — also reached through a directory link whose parent is elsewhere —, directory symlink, missing middle layer, second document carrying the directive, diamond, shared layer linked twice, twin chains with identical file names in two directories), odd names and directories, noise files, debug logging (-v / BKL_DEBUG) in 10% and escaped-dollar spellings in 6% of the runs, 1-2 command-line inputs, virtual extension, -P, -f; runs the instrumented bkl (findFile's stat-probe order seeded); oracle 1 = reference resolver (post-order load list) + the real MergeDocument/Output applied to those loads in a fresh parser; oracle 2 = disk perturbations that must not matter (relocation, absolute input path, noise files, filename chain re-expressed with $parent and renamed); oracle 3 = per-layer fault sweep (delete, dangling link, directory, garbage, openat EIO/EACCES, read EIO) must be fatal; non-trivial = chain of >= 2 loads; distinct = canonical case"
 	ev.Coverage["loop_seconds"] = time.Since(t0).Seconds()
 	ev.Assumptions = []string{
 		"layouts in which a layer name has two providers are detected by the model and skipped (the property excludes them)",
